@@ -1,16 +1,28 @@
 import GoCrypt.Proofs.Argon2Eq.Hash
 import GoCrypt.Proofs.Argon2Eq.Block
 import GoCrypt.Proofs.Argon2Eq.Index
+import GoCrypt.Proofs.Argon2Eq.Struct
+import GoCrypt.Proofs.Argon2Eq.Segment
+import GoCrypt.Proofs.Argon2Eq.Fill
+import GoCrypt.Proofs.Argon2Eq.Bytes
+import GoCrypt.Proofs.Argon2Eq.Blake2bLen
+import GoCrypt.Proofs.Argon2Eq.Key
 
 /-!
 # Argon2: model (`GoCrypt.Kdf.Argon2`, code-shaped) = reference (`GoCrypt.Spec.Argon2Rfc`, RFC 9106 §3)
 
-Helper lemmas for property C04, split over three files:
+Helper lemmas for property C04, split over several files:
 
 * `Argon2Eq/Hash.lean`  — `blake2bHash = H'`, the `H_0` pre-image and its injectivity;
 * `Argon2Eq/Block.lean` — `gb = GB`, `blamka` = `P`, `processBlock` = `G`;
 * `Argon2Eq/Index.lean` — the memory-size rule, closed form of the reference set `W`,
-  `indexAlpha` = the RFC's indexing rule.
+  `indexAlpha` = the RFC's indexing rule;
+* `Argon2Eq/Struct.lean`  — both fill loops re-stated as `List.foldl`s of pure step functions;
+* `Argon2Eq/Segment.lean` — one segment: `processSegment` = the reference's segment loop;
+* `Argon2Eq/Fill.lean`    — all passes/slices/lanes (invariant: 128-word blocks, zero columns in pass 0);
+* `Argon2Eq/Bytes.lean`   — `blockOfBytes`, `bytesOfBlock`: shift/or loops = Horner / div-mod;
+* `Argon2Eq/Blake2bLen.lean` — `|BLAKE2b-k| = k`;
+* `Argon2Eq/Key.lean`     — first two columns, final block, and `key_eq_rfc` for the whole derivation.
 
 The property theorems are collected in `GoCrypt/Props/C04.lean`.
 -/
